@@ -235,7 +235,7 @@ def encode_event(cd, id_, src, orig=None, sem_of=None):
 
 EMPTY_C = dict(
     units=[], names=[], varnames=[], cellvars=[], freevars=[], consts=[], name_keys=[], varname_keys=[], cellvar_keys=[],
-    const_keys=[], consts_sem=[], none_key=-1, const_is_str=[], const_is_code=[], table=[], first=0, argcount=0, posonly=0, kwonly=0,
+    const_keys=[], consts_sem=[], none_key=-1, expected_all=0, const_is_str=[], const_is_code=[], table=[], first=0, argcount=0, posonly=0, kwonly=0,
     flags=[], nlocals=0, stacksize=0, name=-1, filename=-1, cpy_lines=[], dis=[],
 )
 
